@@ -72,7 +72,7 @@ func genCase(t *rapid.T) Case {
 		c.Fault.Mask = []byte{byte(rapid.IntRange(1, 255).Draw(t, "m0")), rapid.Byte().Draw(t, "m1"), rapid.Byte().Draw(t, "m2")}
 	}
 	c.Access = accesses[rapid.IntRange(0, len(accesses)-1).Draw(t, "access")]
-	c.SeekMode = []string{"before", "inside", "start", "back", "back"}[rapid.IntRange(0, 4).Draw(t, "seekmode")]
+	c.SeekMode = []string{"before", "inside", "start", "back", "back", "after-read", "after-read"}[rapid.IntRange(0, 6).Draw(t, "seekmode")]
 	c.SkipIndex = rapid.IntRange(0, 3).Draw(t, "skipindex") == 0
 	c.Async = rapid.IntRange(0, 3).Draw(t, "async") == 0
 	c.Batch = []int{1, 7, 64, 500}[rapid.IntRange(0, 3).Draw(t, "batch")]
@@ -156,6 +156,7 @@ func runCase(c Case, o *kit.Obs) *kit.Failure {
 
 	// choose the seek target (row within the row group)
 	ahead := int64(-1) // "back" mode: row beyond the faulted page visited first
+	readFirst := false // "after-read" mode: read at row 0 before the seek
 	seek := int64(-1)
 	touched := true
 	if c.Access == "Rows+seek" || c.Access == "Reader+seek" || c.Access == "Pages+seek" {
@@ -183,6 +184,11 @@ func runCase(c Case, o *kit.Obs) *kit.Failure {
 				if lastRow < rgRows {
 					ahead = lastRow + (rgRows-lastRow)*int64(c.Fault.Off)/1000
 				}
+			case "after-read":
+				// first a read at the start of the chunk (an asynchronous reader prefetches
+				// ahead of it), then a seek into the faulted page
+				seek = firstRow + (lastRow-firstRow)/2
+				readFirst = firstRow > 0
 			case "start":
 				seek = firstRow
 			default:
@@ -224,6 +230,23 @@ func runCase(c Case, o *kit.Obs) *kit.Failure {
 		defer r.Close()
 		cursor := int64(0)
 		buf := make([]parquet.Row, c.Batch)
+		if readFirst {
+			n, err := r.ReadRows(buf[:1])
+			if errors.Is(err, parquet.ErrCorrupted) {
+				readErr = err
+				break
+			}
+			if n == 1 {
+				got, serr := pq.Streams(cols, []parquet.Row{buf[0]})
+				if serr != nil {
+					return kit.Failf("c13/altered-data"+feat, "malformed first row: %v", serr)
+				}
+				if d := pq.DiffStreams(cols, wantRows[rgBase], got); d != "" {
+					return kit.Failf("c13/altered-data"+feat, "row 0 (read before the seek): %s", d)
+				}
+			}
+			o.Class("read-then-seek")
+		}
 		if ahead >= 0 {
 			// reads beyond the faulted page do not touch it: they must succeed with the true rows
 			// (with the page index; without it the pages in between are crossed, and checked, on the way)
@@ -355,6 +378,17 @@ func runCase(c Case, o *kit.Obs) *kit.Failure {
 		p := f.RowGroups()[gi].ColumnChunks()[ci].Pages()
 		defer p.Close()
 		cursor := int64(0)
+		if readFirst {
+			pg, err := p.ReadPage()
+			if errors.Is(err, parquet.ErrCorrupted) {
+				readErr = err
+				break
+			}
+			if pg != nil {
+				parquet.Release(pg)
+			}
+			o.Class("read-then-seek")
+		}
 		if ahead >= 0 {
 			if err := p.SeekToRow(ahead); err != nil {
 				if errors.Is(err, parquet.ErrCorrupted) {
